@@ -162,6 +162,7 @@ def build_streams(rng, tier):
         Stream("malformed", malformed_lines(rng, tier), h, oracle_corr, tag=tagc),
         Stream("compile-exhaustive", ex, h, **kw),
         Stream("compile-sampled", smp, h, **kw),
+        Stream(ASSEMBLED_TARGETS, (ex[::7] + smp[::3])[:400 if tier == "thorough" else 120], handle_assembled_target, **kw),
         Stream("class-API-object-reuse", ccompile_lines(rng, tier), h, batch_oracle=ccompile_oracle(PID), shrink=shrink_ccompile, model=True,
                tag=lambda l, o: "reuse:" + ("returned" if all(x.startswith("seq=") for x in o.split("|")) else "some-raise"),
                nontrivial=lambda l, o: True),
@@ -204,7 +205,7 @@ def main(tier):
 
 def replay(path):
     r = json.load(open(path)); line = r.get("line")
-    out = impl_compiler.handle(line)
+    out = (handle_assembled_target if ASSEMBLED_TARGETS in str(r.get("stream", "")) else impl_compiler.handle)(line)
     print("line:", line); print("implementation:", out)
     div = 0
     if line.startswith("ccompile "):
